@@ -30,7 +30,7 @@ def handlers : List (String → List String → Option String) := [
   Sig.handle?,
   Adnl.handle?,
   Heap.handle?,
-  Address.handle?
+  Address.handle?,
   VmStack.handle?
 ]
 
